@@ -193,7 +193,7 @@ def _get_function_blocks(
     """
     function_blocks = _auxdata.function_blocks.get(module)
     if function_blocks is not None:
-        return function_blocks[func_uuid]
+        return function_blocks.get(func_uuid, set())
     else:
         return set()
 
